@@ -162,7 +162,9 @@ Run(in, modes, nid) == RunFrom(in, [tab |-> in.rows, rec |-> <<>>, act |-> <<>>]
 
 \* AddOrUpdateRecord with nothing in require and nothing in col_values may also do nothing
 NothingGiven(in) == in.kind = "single" /\ in.require = <<>> /\ in.colvals = <<>>
-Modes(in) == [1..NRows(in) -> IF NothingGiven(in) THEN {"start", "now", "skip"} ELSE {"start", "now"}]
+\* (for the first input row "start" and "now" are the same table)
+Modes(in) == {m \in [1..NRows(in) -> IF NothingGiven(in) THEN {"start", "skip"} ELSE {"start", "now"}] :
+                NRows(in) = 0 \/ m[1] # "now"}
 
 (***************************************************************************)
 (* The returned value that goes with a run                                 *)
@@ -197,13 +199,14 @@ NidTab(in, o) == LET new == SortSet(Ids(o.after) \ Ids(in.rows))
                  IN [p \in Pairs(in) |-> IF p[2] + 1 <= Len(new) THEN new[p[2] + 1] ELSE 0 - p[1]]
 
 Served(in, o) ==
-  LET nr == NidRet(in, o)
-      nt == NidTab(in, o)
-      TabOk(m, nid) == SameTable(o.after, Run(in, m, nid).tab)
-      RetOk(m)      == o.retok /\ ObsRet(o) = RetOf(in, Run(in, m, nr))
-      full   == \E m \in Modes(in) : TabOk(m, nr) /\ RetOk(m)
-      tabAny == \E m \in Modes(in) : TabOk(m, nr) \/ TabOk(m, nt)
-      retAny == \E m \in Modes(in) : RetOk(m)
+  LET \* the admissible runs, with the new ids as returned / as seen in the table (each evaluated once)
+      runsR == {Run(in, m, NidRet(in, o)) : m \in Modes(in)}
+      runsT == {Run(in, m, NidTab(in, o)) : m \in Modes(in)}
+      TabOk(st) == SameTable(o.after, st.tab)
+      RetOk(st) == o.retok /\ ObsRet(o) = RetOf(in, st)
+      full   == \E st \in runsR : TabOk(st) /\ RetOk(st)
+      tabAny == (\E st \in runsR : TabOk(st)) \/ (\E st \in runsT : TabOk(st))
+      retAny == \E st \in runsR : RetOk(st)
   IN IF full THEN {}
      ELSE IF tabAny THEN {"C28.ret"}
      ELSE {"C28.result"} \cup Mark(retAny, "C28.ret")
